@@ -212,7 +212,7 @@ fn run_property(cfg: &Cfg) -> Result<Outcome, String> {
         "C12" => run_boards(
             cfg,
             BoardRun {
-                mix: Mix { mating: 30, walk_pct: 50, clock_edge_pct: 40, ..Mix::GENERAL },
+                mix: Mix { mating: 30, fewmovers: 25, walk_pct: 50, clock_edge_pct: 40, ..Mix::GENERAL },
                 quick: 3_000_000,
                 thorough: 80_000_000,
                 small: true,
@@ -263,7 +263,7 @@ fn run_property(cfg: &Cfg) -> Result<Outcome, String> {
         "C16" => run_boards(
             cfg,
             BoardRun {
-                mix: Mix { maxbatch: 4, ..Mix::GENERAL },
+                mix: Mix { maxbatch: 6, fewmovers: 8, ..Mix::GENERAL },
                 quick: 800_000,
                 thorough: 20_000_000,
                 small: false,
